@@ -87,6 +87,7 @@ type Config struct {
 	KnownOpen    map[string]bool
 	Verbose      bool
 	MaxViolPerID int
+	BudgetSec    int
 }
 
 type pathEnd struct {
@@ -698,6 +699,14 @@ func (w *World) Explore(h *harnessFn, cfg *Config) *HarnessRun {
 		outstanding++
 		mu.Unlock()
 		cond.Signal()
+	}
+	if cfg.BudgetSec > 0 {
+		timer := time.AfterFunc(time.Duration(cfg.BudgetSec)*time.Second, func() {
+			if atomic.CompareAndSwapInt32(&run.stop, 0, 1) {
+				run.note(&run.Inconclusive, fmt.Sprintf("harness time budget of %ds exhausted", cfg.BudgetSec))
+			}
+		})
+		defer timer.Stop()
 	}
 	var wg sync.WaitGroup
 	for i := 0; i < cfg.Workers; i++ {
